@@ -126,7 +126,12 @@ pub struct Outcome {
 }
 
 fn run_program(text: &str, stdout_canon: bool) -> Outcome {
-    os::install(os::SimOs::new());
+    let mut sim_os = os::SimOs::new();
+    // module files for programs that import (the module sees the importer's scope)
+    sim_os.nodes.insert("lib".into(), os::Node::File(b"doubled := factor * 2; tag := \"lib\"".to_vec()));
+    sim_os.nodes.insert("modp".into(), os::Node::File(b"a := 1; f := (x: int) -> int { return x + a }; s := \"t\"".to_vec()));
+    sim_os.nodes.insert("modu".into(), os::Node::File(b"pick := (k: bool) -> int|string|float { if k { return 1 } return \"s\" }; both := [pick(true), pick(false)]".to_vec()));
+    os::install(sim_os);
     let mut out = Outcome::default();
     let interp = Interpreter::with_stdlib();
     let parsed = guarded(|| Code::parse(&interp, text));
